@@ -154,3 +154,60 @@ def field_reads(fn, field):
         if t["k"] == "switch" and t["discr"]["k"] in ("copy", "move") and field in place_fields(t["discr"]["pl"]):
             res.append((i, {"switch": True, "line": t["span"]["line"]}))
     return res
+
+
+def all_paths_hit_flags(fn, start, hit_blocks, stop_blocks=None):
+    """like all_paths_hit, but path-sensitive on boolean locals that are only ever assigned constants along the path:
+    a branch on such a flag follows only the feasible edge (so `valid = false; ...; if !valid { clear }` is understood)."""
+    hit = set(hit_blocks)
+    ends = set(fn.exits()) | set(stop_blocks or ())
+    bool_locals = set(l for l, d in enumerate(fn.locals) if d["ty"] == "bool")
+
+    def step_state(state, b):
+        st = dict(state)
+        for s in fn.blocks[b]["stmts"]:
+            if s["k"] != "assign" or s["pl"]["p"]:
+                continue
+            l = s["pl"]["l"]
+            if l not in bool_locals:
+                continue
+            rv = s["rv"]
+            if rv["k"] == "use" and rv["op"]["k"] == "const" and rv["op"].get("v") in ("true", "false"):
+                st[l] = rv["op"]["v"] == "true"
+            elif rv["k"] == "use" and rv["op"]["k"] in ("copy", "move") and not rv["op"]["pl"]["p"] and rv["op"]["pl"]["l"] in st:
+                st[l] = st[rv["op"]["pl"]["l"]]
+            elif rv["k"] == "unop" and rv["op"] == "Not" and rv["o"]["k"] in ("copy", "move") and not rv["o"]["pl"]["p"] and rv["o"]["pl"]["l"] in st:
+                st[l] = not st[rv["o"]["pl"]["l"]]
+            else:
+                st.pop(l, None)
+        t = fn.blocks[b]["term"]
+        if t["k"] == "call" and t["dest"] is not None and not t["dest"]["p"]:
+            st.pop(t["dest"]["l"], None)
+            # a &mut borrow of a flag handed to a call makes it unknown: conservatively drop flags whose address is taken in this block
+        for s in fn.blocks[b]["stmts"]:
+            if s["k"] == "assign" and s["rv"]["k"] == "ref" and s["rv"]["bk"] == "mut" and not s["rv"]["pl"]["p"]:
+                st.pop(s["rv"]["pl"]["l"], None)
+        return st
+
+    seen = set()
+    work = [(start, ())]
+    while work:
+        b, stt = work.pop()
+        if (b, stt) in seen:
+            continue
+        seen.add((b, stt))
+        if b in hit:
+            continue
+        if b in ends:
+            return False, b
+        st = step_state(dict(stt), b)
+        t = fn.blocks[b]["term"]
+        succs = fn.succs(b)
+        if t["k"] == "switch" and t["discr"]["k"] in ("copy", "move") and not t["discr"]["pl"]["p"] and t["discr"]["pl"]["l"] in st:
+            val = st[t["discr"]["pl"]["l"]]
+            zero = [bb for v, bb in t["targets"] if v == "0"]
+            succs = [t["otherwise"]] if val else zero
+        key = tuple(sorted(st.items()))
+        for y in succs:
+            work.append((y, key))
+    return True, None
